@@ -43,6 +43,44 @@ def h_ctag_step(c0: bytes, c1: bytes, c2: bytes, target: int, body: bytes, hist:
     return run(body_ctag_step, c0, c1, c2, target, body, hist)
 
 
+def body_web_reads(c0, c1, which, typed):
+    """Reads through the web layer (which resolves the collection, guesses its type, lists and serves members)
+    never move the tag - in particular on a collection that carries NO stored type (imported / legacy repository
+    whose metadata lives in the tree)."""
+    from xv.env import mstore as _ms, mweb
+    from xv.oracles import storespec as SP
+    kind = ctx.PART
+    S = _store.pre_state([c0, c1, b""], 2)
+    if not SP.invariant(S):
+        return (True, "pre-invalid")
+    w = mweb.fresh_world({}, {})
+    col = "/user/calendars/plain"
+    _ms.install_state(kind, mweb.ROOT + col, S)
+    if typed:
+        mweb.set_type(mweb.ROOT + col, "calendar")
+    app = mweb.make_app()
+    tag0 = _ms.open_store(kind, mweb.ROOT + col).get_ctag()
+    if which == 0:
+        mweb.call(app, "PROPFIND", col + "/", headers=[("Depth", "1")], xml=mweb.propfind_body("{DAV:}getetag", "{DAV:}resourcetype"))
+    elif which == 1:
+        mweb.call(app, "GET", col + "/a.ics")
+    elif which == 2:
+        mweb.call(app, "PROPFIND", "/user/calendars/", headers=[("Depth", "1")], xml=mweb.propfind_body("{DAV:}resourcetype"))
+    else:
+        mweb.call(app, "GET", col + "/")
+    tag1 = _ms.open_store(kind, mweb.ROOT + col).get_ctag()
+    ok = tag1 == tag0 and tag0 == _store.expected_ctag(S)
+    return (ok, ("typed" if typed else "untyped") + ":%d" % which)
+
+
+def h_web_reads(c0: bytes, c1: bytes, which: int, typed: bool) -> bool:
+    """
+    pre: len(c0) <= 2 and len(c1) <= 2 and 0 <= which <= 3
+    post: _
+    """
+    return run(body_web_reads, c0, c1, which, typed)
+
+
 def body_ctag_fault(c0, c1, target, body, k):
     """A write that fails part-way (injected ENOSPC / failed ref update at the k-th mutation) must not move the tag,
     neither as seen by the same store object (caches!) nor by a fresh one."""
@@ -83,6 +121,13 @@ HARNESSES = [
             encodes=_store.STEP_ENCODES + ["xandikos.web.StoreBasedCollection.get_ctag",
                                            "xandikos.web.StoreBasedCollection.get_sync_token",
                                            "xandikos.web.StoreBasedCollection.get_etag"]),
+    Harness("web_reads", h_web_reads, body_web_reads, classes=[("untyped:0", "tree"), ("typed:1", "bare")],
+            parts={"quick": ["tree", "bare"]}, budget={"quick": 75, "thorough": 300},
+            describe="PROPFIND / GET through the real web layer on a typed or untyped collection in an arbitrary valid "
+                     "state leave the tag equal to the tree id of that state; part = back end",
+            encodes=["xandikos.web.XandikosBackend.get_resource", "xandikos.store.git.GitStore.get_type",
+                     "xandikos.store.Store.get_type", "xandikos.store.git.GitStore.config",
+                     "xandikos.webdav.PropfindMethod.handle", "xandikos.webdav._do_get"]),
     Harness("ctag_fault", h_ctag_fault, body_ctag_fault,
             classes=[("fault:obj-add", ("bare", 0)), ("fault:ref-set", ("bare", 1)), ("fault:append", ("tree", 0))],
             parts={"quick": [(k, op) for k in ("bare", "tree") for op in (0, 1)]}, budget={"quick": 60, "thorough": 420},
